@@ -1,6 +1,7 @@
 /-
 C10 — Printed digit tables place every digit at its true position.
 -/
+import Sqroot.Proofs.Overflow
 import Sqroot.Proofs.Print
 import Sqroot.Proofs.Fprint
 import Sqroot.Proofs.EndToEnd
@@ -67,5 +68,21 @@ theorem fwrite_end_to_end (c : MemoCfg) (m : Memo) (b v : Val3) (chain : List Vi
       r.accepted = Spec.layout (toPOpts .v3 s endP) shown ∧
       r.written = r.accepted.length ∧ r.err = false :=
   Sqroot.Proofs.fwrite_end_to_end c m b v chain size s w st hw hb hv hfin hsize hfit hd
+
+/-- The label width is the one place of the printer whose arithmetic is regenerated into unbounded
+`Int`: for every `DigitsPerRow` in the int64 range and every `Positions.End()` in [0, MaxInt] no
+intermediate result of the Go code leaves int64 (the generated overflow companion is false), so
+the unbounded reading IS the Go reading — also for "print everything", `UpTo(math.MaxInt)` -/
+theorem label_width_arithmetic_fits_int64 (row maxDigits : Int) (showCount : Bool)
+    (hr : Sqroot.Proofs.I64 row) (hm : 0 ≤ maxDigits ∧ Sqroot.Proofs.I64 maxDigits) :
+    Gen.V1.digitCountWidthOvf row showCount maxDigits = false ∧
+    Gen.V2.digitCountWidthOvf row showCount maxDigits = false ∧
+    Gen.V3.digitCountWidthOvf row showCount maxDigits = false :=
+  ⟨Sqroot.Proofs.digitCountWidth_fits_v1 row maxDigits showCount hr hm,
+   Sqroot.Proofs.digitCountWidth_fits_v2 row maxDigits showCount hr hm,
+   Sqroot.Proofs.digitCountWidth_fits_v3 row maxDigits showCount hr hm⟩
+
+example : Gen.V1.digitCountWidthOvf 50 true 9223372036854775807 = false ∧
+    Gen.V1.digitCountWidth 50 true 9223372036854775807 = 19 := by decide
 
 end Sqroot.Props.C10
